@@ -163,6 +163,27 @@ def main():
     storers = strip_comments(src("throttlecrab-server/src/store.rs"))
     add("STORE_SPAWN_CALLS", len(re.findall(r"RateLimiterActor::spawn_\w+\(", storers)), "store.rs: actor spawns (one per store kind branch)")
 
+    # ---- which metric call each transport makes in which arm (C15) -------------------------------
+    def metric_calls(text, what):
+        m = re.search(r"match\s+(?:state|self)\.limiter\.throttle\([^)]*\)\.await\s*\{", text)
+        if not m:
+            raise KeyError("limiter.throttle match in " + what)
+        i = m.end(); depth = 1
+        while depth:
+            ch = text[i]
+            depth += (ch == "{") - (ch == "}")
+            i += 1
+        body = text[m.end():i - 1]
+        arms = re.split(r"\n\s*Err\(", body, maxsplit=1)
+        if len(arms) != 2:
+            raise KeyError("Ok/Err arms in " + what)
+        def calls(t):
+            return [re.sub(r"\s+", " ", c.strip()) for c in re.findall(r"metrics\s*\.\s*(record_\w+\([^;]*?\));", t, re.S)]
+        return [("ok", c) for c in calls(arms[0])] + [("err", c) for c in calls(arms[1])]
+    http_calls = metric_calls(http, "http.rs")
+    grpc_calls = metric_calls(grpc, "grpc.rs")
+    resp_calls = [re.sub(r"\s+", " ", c.strip()) for c in re.findall(r"metrics\.(record_\w+\([^;]*?\));", rmod, re.S)]
+
     def pairs(name, doc, xs):
         return [f"/-- {doc} -/", f"def {name} : List (String × String) := [" + ", ".join(f'("{a}", "{b}")' for a, b in xs) + "]"]
 
@@ -184,6 +205,10 @@ def main():
     lines += pairs("GRPC_RESPONSE_MAP", "grpc.rs response literal: (proto field, source expression)", grpc_resp)
     lines += pairs("GRPC_REQUEST_MAP", "grpc.rs ActorRequest literal: (request field, source expression)", grpc_req)
     lines += pairs("HTTP_REQUEST_MAP", "http.rs InternalRequest literal: (request field, source expression)", http_req)
+    lines += pairs("HTTP_METRIC_CALLS", "http.rs handle_throttle: (arm of the limiter result, metrics call)", http_calls)
+    lines += pairs("GRPC_METRIC_CALLS", "grpc.rs throttle: (arm of the limiter result, metrics call)", grpc_calls)
+    lines.append("/-- redis/mod.rs: every metrics call of the RESP command handler, in source order -/")
+    lines.append("def RESP_METRIC_CALLS : List String := [" + ", ".join('"' + c.replace('"', "'") + '"' for c in resp_calls) + "]")
     lines.append("/-- redis/mod.rs: the response fields in the order of the 5-integer reply array -/")
     lines.append("def RESP_REPLY_FIELDS : List String := [" + ", ".join(f'"{x}"' for x in resp_reply) + "]")
     lines.append("/-- redis/mod.rs: which command-array index feeds which request field -/")
